@@ -158,6 +158,8 @@ func (p *Program) bodyEffects(fn *ssa.Function, depth int) effects {
 					break
 				}
 				switch y := root.(type) {
+				case *ssa.FreeVar:
+					// assignment to a captured variable: accounted for at the call site that passes the closure
 				case *ssa.Alloc:
 					// stores into the function's own fresh local variables are invisible to callers
 				case *ssa.IndexAddr:
@@ -337,6 +339,7 @@ func (e *Engine) call(fr *Frame, st *State, reach Term, site ssa.Instruction, c 
 	}
 	e.note("call to %s has no contract: results and all heap state havoc'd", id)
 	e.used["uncontracted:"+id] = true
+	defer e.reassumeGlobals(st)
 	e.exposing = true
 	for _, a := range args {
 		e.flat(st, reach, a) // arguments escape
@@ -351,6 +354,53 @@ func (e *Engine) call(fr *Frame, st *State, reach Term, site ssa.Instruction, c 
 	res := e.havocVal(reach, "res."+label, resType)
 	e.labels[label] = &callLabel{Reach: reach, Args: args, Results: splitResults(res)}
 	return res, reach
+}
+
+// assignedFreeVars: captured variables a closure (or a closure nested in it) stores to directly.
+func assignedFreeVars(fn *ssa.Function) map[*ssa.FreeVar]bool {
+	out := map[*ssa.FreeVar]bool{}
+	for _, b := range fn.Blocks {
+		for _, in := range b.Instrs {
+			switch x := in.(type) {
+			case *ssa.Store:
+				root := x.Addr
+				for {
+					if fa, ok := root.(*ssa.FieldAddr); ok {
+						root = fa.X
+						continue
+					}
+					break
+				}
+				if fv, ok := root.(*ssa.FreeVar); ok {
+					out[fv] = true
+				}
+			case *ssa.MakeClosure:
+				inner := assignedFreeVars(x.Fn.(*ssa.Function))
+				for i, bnd := range x.Bindings {
+					if fv, ok := bnd.(*ssa.FreeVar); ok && i < len(x.Fn.(*ssa.Function).FreeVars) && inner[x.Fn.(*ssa.Function).FreeVars[i]] {
+						out[fv] = true
+					}
+				}
+			}
+		}
+	}
+	return out
+}
+
+// reassumeGlobals: invariants of immutable package variables hold in every state.
+func (e *Engine) reassumeGlobals(st *State) {
+	if e.Fn.Name() == "init" && e.Fn.Synthetic != "" {
+		return
+	}
+	for _, gi := range e.P.Contracts.Globals {
+		env := e.newEnv(nil, st)
+		env.pkg = gi.Pkg
+		c, err := env.evalBool(gi.Clause.E)
+		if err != nil {
+			continue
+		}
+		e.assumeIfRelevant(c, []string{"G." + gi.Pkg + "." + gi.Global + "."})
+	}
 }
 
 func noLoops(fn *ssa.Function) bool {
@@ -539,11 +589,36 @@ func (e *Engine) applyContract(fr *Frame, st *State, reach Term, fc *FuncContrac
 	}
 	if eff.all {
 		st.havocPrefix([]string{""}, true)
+		e.reassumeGlobals(st)
 	} else if len(eff.comps) > 0 {
 		st.havocPrefix(eff.comps, true)
 	}
 	for _, ref := range anyObjs {
 		st.havocObject(ref)
+	}
+	// closures handed to the callee may be run by it any number of times
+	var lastClo *Closure
+	for i, a := range args {
+		if a.Clo == nil {
+			continue
+		}
+		if i < len(names) && fc.LastCall != "" && names[i] == fc.LastCall {
+			lastClo = a.Clo
+		}
+		ce := e.P.bodyEffects(a.Clo.Fn, 1)
+		if ce.all {
+			st.havocPrefix([]string{""}, true)
+		} else if len(ce.comps) > 0 {
+			st.havocPrefix(ce.comps, true)
+		}
+		assigned := assignedFreeVars(a.Clo.Fn)
+		for bi, b := range a.Clo.Bindings {
+			// captured variables that the closure assigns
+			if b.Addr != nil && b.Addr.Kind == aHeap && bi < len(a.Clo.Fn.FreeVars) && assigned[a.Clo.Fn.FreeVars[bi]] {
+				hv := e.havocVal(reach, "cap", b.Addr.T)
+				e.store(st, b.Addr, hv)
+			}
+		}
 	}
 	// object-granular havoc for "*param"
 	for _, o := range objs {
@@ -612,7 +687,23 @@ func (e *Engine) applyContract(fr *Frame, st *State, reach Term, fc *FuncContrac
 			}
 		}
 	}
+	if lastClo != nil && len(results) > 0 && noLoops(lastClo.Fn) && e.depth < 4 {
+		// summary of a retry-style higher-order function: state and verdict are those of the last call of the closure
+		var rt types.Type = lastClo.Fn.Signature.Results()
+		if lastClo.Fn.Signature.Results().Len() == 1 {
+			rt = lastClo.Fn.Signature.Results().At(0).Type()
+		}
+		lr, nreach := e.inline(st, reach, lastClo.Fn, lastClo, nil, rt, label+".last")
+		_ = nreach
+		last := results[len(results)-1]
+		if isErrorType(last.T) && isErrorType(lr.T) && len(lr.L) == 2 {
+			e.assume(reach, Eq(Eq(last.L[0], IntLit(0)), Eq(lr.L[0], IntLit(0))))
+		}
+	}
 	for _, en := range fc.Ensures {
+		if usesTrace(en.E) {
+			continue // talks about the callee's own call sites: meaningful only inside the callee
+		}
 		env := e.newEnv(nil, st)
 		env.bind = post
 		env.old = old
@@ -626,6 +717,32 @@ func (e *Engine) applyContract(fr *Frame, st *State, reach Term, fc *FuncContrac
 	}
 	e.labels[label] = &callLabel{Reach: reach, Args: args, Results: results}
 	return res
+}
+
+// usesTrace: the expression mentions called()/res()/arg() of call sites.
+func usesTrace(x Expr) bool {
+	switch n := x.(type) {
+	case ECall:
+		if id, ok := n.Fun.(EIdent); ok && (id.Name == "called" || id.Name == "res" || id.Name == "arg") {
+			return true
+		}
+		for _, a := range n.Args {
+			if usesTrace(a) {
+				return true
+			}
+		}
+	case EBinary:
+		return usesTrace(n.X) || usesTrace(n.Y)
+	case EUnary:
+		return usesTrace(n.X)
+	case ESel:
+		return usesTrace(n.X)
+	case EIndex:
+		return usesTrace(n.X) || usesTrace(n.I)
+	case EQuant:
+		return usesTrace(n.Body)
+	}
+	return false
 }
 
 func pkgOfID(id string) string { return strings.SplitN(id, ".", 2)[0] }
@@ -862,7 +979,7 @@ func (e *Engine) appendOp(fr *Frame, st *State, reach Term, c *ssa.CallCommon, a
 		name := "E." + typeID(et) + "." + lf.Path
 		inSort := ArraySort(SInt, lf.Sort)
 		arr := st.comp(name, ArraySort(SInt, inSort))
-		oldInner := e.define("aold", Select(arr, sArr, inSort))
+		oldInner := e.name("aold", Select(arr, sArr, inSort))
 		ni := e.fresh("anew", inSort)
 		// kept prefix
 		e.assumes = append(e.assumes, T(SBool, "(forall ((a Int)) (! (=> (and (<= %s a) (< a (+ %s %s))) (= (select %s a) (select %s (+ (- a %s) %s)))) :pattern ((select %s a))))",
@@ -915,7 +1032,7 @@ func (e *Engine) copyOp(st *State, reach Term, args []Val, resType types.Type) V
 		name := "E." + typeID(et) + "." + lf.Path
 		inSort := ArraySort(SInt, lf.Sort)
 		arr := st.comp(name, ArraySort(SInt, inSort))
-		oldInner := e.define("cpold", Select(arr, d.L[0], inSort))
+		oldInner := e.name("cpold", Select(arr, d.L[0], inSort))
 		ni := e.fresh("cpnew", inSort)
 		var src string
 		if srcStr {
